@@ -61,6 +61,66 @@ def c13_case(seg, nodes):
     return bad
 
 
+def c13_builder_case(dets, ids, extra):
+    """the builder path: tracks_from_df with a seg_id column (TracksBuilder.handle_segmentation decides how to relabel)"""
+    import warnings
+    import pandas as pd
+    from funtracks.import_export import tracks_from_df
+    seg = np.zeros((2, 4, 8), dtype=np.uint16)
+    rows = []
+    per = {}
+    for (t, label), nid in zip(dets, ids):
+        k = per.get(t, 0)
+        per[t] = k + 1
+        seg[t, 1, 1 + 2 * k] = label
+        rows.append({"time": t, "y": 1.0, "x": float(1 + 2 * k), "id": nid, "parent_id": -1, "seg_id": label})
+    if extra is not None:
+        seg[extra[0], 3, 6] = extra[1]
+    with warnings.catch_warnings():
+        warnings.simplefilter("ignore")
+        tr = tracks_from_df(pd.DataFrame(rows), seg.copy())
+    off = 1 if 0 in ids else 0
+    exp = np.zeros(seg.shape, dtype=np.uint64)
+    for (t, label), nid in zip(dets, ids):
+        exp[t][seg[t] == label] = nid + off
+    bad = []
+    if not np.array_equal(np.asarray(tr.segmentation), exp):
+        bad.append("imported segmentation differs from 'source pixels of (time, seg id) relabelled to the node id, background elsewhere'")
+    if sorted(int(n) for n in tr.graph.nodes) != sorted(i + off for i in ids):
+        bad.append(f"graph nodes {sorted(tr.graph.nodes)} != ids shifted by {off}")
+    return bad
+
+
+def c13_builder(size, seed):
+    cases = nontrivial = 0
+    viol = []
+    slots = [(t, lab) for t in (0, 1) for lab in (1, 2, 3)]
+    pool = [0, 1, 2, 3, 7]
+    rng = random.Random(seed)
+    combos = []
+    for k in (1, 2, 3):
+        for dets in itertools.combinations(slots, k):
+            for ids in itertools.permutations(pool, k):
+                for extra in (None, (0, 9), (1, 2)):
+                    if extra is not None and (extra[0], extra[1]) in dets:
+                        continue
+                    combos.append((dets, ids, extra))
+    if size == "quick":
+        # every identity / subset-of-ids case (where a shortcut could skip the relabelling) plus a seeded sample of the rest
+        special = [c for c in combos if all(lab in c[1] for (_, lab) in c[0])]
+        rest = [c for c in combos if c not in set(special)]
+        combos = special + rng.sample(rest, min(250, len(rest)))
+    for dets, ids, extra in combos:
+        cases += 1
+        nontrivial += extra is not None or 0 in ids or any(lab in ids for (_, lab) in dets)
+        bad = c13_builder_case(dets, ids, extra)
+        if bad:
+            viol.append({"what": "c13_builder", "dets": dets, "ids": ids, "extra": extra, "bad": bad})
+            if len(viol) > 3:
+                break
+    return cases, nontrivial, viol
+
+
 def c13(size, seed):
     frames, cells, labs = (2, 3, 3) if size == "quick" else (2, 3, 4)
     cases = nontrivial = 0
@@ -606,13 +666,15 @@ def c12(size, seed):
     return cases, nontrivial, viol
 
 
-CHECKS = {"c13": c13, "c19rel": c19rel, "c15": c15, "c16": c16, "c17": c17, "c18": c18, "c12": c12}
+CHECKS = {"c13": c13, "c13b": c13_builder, "c19rel": c19rel, "c15": c15, "c16": c16, "c17": c17, "c18": c18, "c12": c12}
 
 
 def replay(w):
     k = w["what"]
     if k == "c13":
         bad = c13_case(np.array(w["seg"]), [tuple(x) for x in w["nodes"]])
+    elif k == "c13_builder":
+        bad = c13_builder_case([tuple(d) for d in w["dets"]], tuple(w["ids"]), tuple(w["extra"]) if w["extra"] else None)
     elif k == "c19rel":
         bad = c19rel_case(tuple(w["times"]), tuple(w["parents"]), w["extra"])
     elif k == "c15":
